@@ -23,7 +23,7 @@ ASSUMPTIONS = ['level names are matched case-insensitively and numeric levels ar
                'log file of the handler plus a suffix (.gz, ~, .1) are not log files: they neither count for the retention '
                'nor may they be removed']
 REQUIRED = ['routing_sequences', 'emits', 'deliveries_expected', 'silences_expected', 'resets', 'invalid_level_requests',
-            'rotations', 'rotations_with_surplus']
+            'rotations', 'rotations_with_surplus', 'concurrent_disconnects_injected', 'concurrent_logging_requests_injected']
 
 N_SEQ = {'quick': 200, 'thorough': 10000}
 N_DIR = {'quick': 200, 'thorough': 10000}
@@ -63,6 +63,9 @@ class Routing:
         mlzlog.setLoggerClass(mlzlog.MLZLogger)
         self.init_remote_logging = init_remote_logging
         self.k = 0
+        from vlib import lineinject
+        from frappy.logging import RemoteLogHandler
+        self.inj = lineinject.LineInjector(RemoteLogHandler.set_conn_level, name='c20-inject')
 
     def make_node(self, nmod):
         self.k += 1
@@ -102,12 +105,32 @@ class Routing:
                 ops.append(['logging', ci, spec, level if isinstance(level, (str, int, float, type(None))) else repr(level)])
                 want = model_level(level)
                 before = {k: dict(v) for k, v in table.items()}
+                # a second connection goes away (its own thread, outside the request lock) exactly before the k-th line the
+                # request executes inside RemoteLogHandler.set_conn_level
+                gone = None
+                if self.inj is not None and nconn > 1 and want is not None and rng.random() < 0.3:
+                    cj = rng.choice([j for j in range(nconn) if j != ci])
+                    gone = (cj, conns[cj])
+                    k = rng.randint(1, 8)
+                    ops[-1].append(f'while connection {cj} disconnects at line {k}')
+                    self.inj.arm(k, lambda cc=conns[cj]: disp.remove_connection(cc))
                 try:
                     reply = disp.handle_request(c, ('logging', spec, level))
                     ok = True
                 except Exception as e:
                     ok = False
                     reply = type(e).__name__
+                if gone is not None:
+                    if not self.inj.disarm():
+                        disp.remove_connection(gone[1])       # line not reached: the disconnect happens right afterwards
+                    else:
+                        r.count('concurrent_disconnects_injected')
+                    del table[gone[1].n]
+                    cnew = self.nodes.Conn(f'c{gone[0]}c')
+                    disp.add_connection(cnew)
+                    conns[gone[0]] = cnew
+                    table[cnew.n] = {}
+                    had_reset = True
                 if want is None:
                     r.count('invalid_level_requests')
                     if ok:
@@ -163,7 +186,27 @@ class Routing:
             else:
                 ci = rng.randrange(nconn)
                 ops.append(['disconnect', ci])
+                other = None
+                if self.inj is not None and nconn > 1 and rng.random() < 0.4:
+                    # another connection sends a logging request exactly before the k-th line of set_conn_level executed
+                    # by this disconnect
+                    cj = rng.choice([j for j in range(nconn) if j != ci])
+                    m2, l2 = rng.choice(mods), rng.choice(['debug', 'info', 'warning', 'error', 'off'])
+                    k = rng.randint(1, 8)
+                    other = (cj, m2, l2)
+                    ops[-1].append(f'while connection {cj} requests logging {m2} {l2} at line {k}')
+                    self.inj.arm(k, lambda cc=conns[cj], m2=m2, l2=l2: disp.handle_request(cc, ('logging', m2, l2)))
                 disp.remove_connection(conns[ci])
+                if other is not None:
+                    if not self.inj.disarm():
+                        disp.handle_request(conns[other[0]], ('logging', other[1], other[2]))
+                    else:
+                        r.count('concurrent_logging_requests_injected')
+                    lv = model_level(other[2])
+                    if lv == OFF:
+                        table[conns[other[0]].n].pop(other[1], None)
+                    else:
+                        table[conns[other[0]].n][other[1]] = lv
                 old = conns[ci]
                 del table[old.n]
                 c = self.nodes.Conn(f'c{ci}b')
@@ -306,8 +349,12 @@ def run_shard(shard):
     r = rec.Recorder(shard)
     rng = random.Random(f'C20/{shard["seed"]}/{shard["idx"]}')
     rt = Routing(r)
-    for _ in range(shard['n_seq']):
-        rt.run_sequence(rng)
+    try:
+        for _ in range(shard['n_seq']):
+            rt.run_sequence(rng)
+    finally:
+        r.count('line_injections', rt.inj.injected)
+        rt.inj.close()
     ro = Rotation(r)
     try:
         for _ in range(shard['n_dir']):
@@ -329,6 +376,9 @@ def replay(case):
             ro.close()
     else:
         rt = Routing(r)
-        for _ in range(300):
-            rt.run_sequence(rng)
+        try:
+            for _ in range(300):
+                rt.run_sequence(rng)
+        finally:
+            rt.inj.close()
     return r.result()
